@@ -88,9 +88,20 @@ def run_cmd(cmd, cwd=None, timeout=3600, input_text=None):
     return p.returncode, p.stdout, p.stderr, time.time() - t0
 
 
+def prop_modules(prop):
+    """A property's theorem files: Props/<prop>.lean and Props/<prop><Suffix>.lean (e.g. C12Gen.lean)."""
+    d = os.path.join(LEAN_DIR, 'SageoptModel', 'Props')
+    out = []
+    for fn in sorted(os.listdir(d)):
+        m = re.match(r'^(%s[A-Za-z]*)\.lean$' % prop, fn)
+        if m:
+            out.append('SageoptModel.Props.%s' % m.group(1))
+    return out
+
+
 def lean_module_files(prop):
-    """Lean files in the dependency cone of Props/<prop>.lean inside this project (transitively)."""
-    seen, todo = [], ['SageoptModel.Props.%s' % prop]
+    """Lean files in the dependency cone of the property's theorem files inside this project (transitively)."""
+    seen, todo = [], list(prop_modules(prop))
     while todo:
         m = todo.pop()
         path = os.path.join(LEAN_DIR, *m.split('.')) + '.lean'
@@ -105,23 +116,24 @@ def lean_module_files(prop):
 
 
 def theorem_names(prop):
-    """All `theorem` declarations of Props/<prop>.lean, fully qualified."""
-    path = os.path.join(LEAN_DIR, 'SageoptModel', 'Props', prop + '.lean')
-    src = strip_lean_comments(open(path).read())
-    ns = []
+    """All `theorem` declarations of the property's theorem files, fully qualified."""
     names = []
-    for line in src.split('\n'):
-        m = re.match(r'\s*namespace\s+(\S+)', line)
-        if m:
-            ns.append(m.group(1))
-            continue
-        m = re.match(r'\s*end\s+(\S+)', line)
-        if m and ns and ns[-1] == m.group(1):
-            ns.pop()
-            continue
-        m = re.match(r'\s*(?:@\[[^\]]*\]\s*)?(?:private\s+|protected\s+)?theorem\s+([^\s:({\[]+)', line)
-        if m:
-            names.append('.'.join(ns + [m.group(1)]))
+    for mod in prop_modules(prop):
+        path = os.path.join(LEAN_DIR, *mod.split('.')) + '.lean'
+        src = strip_lean_comments(open(path).read())
+        ns = []
+        for line in src.split('\n'):
+            m = re.match(r'\s*namespace\s+(\S+)', line)
+            if m:
+                ns.append(m.group(1))
+                continue
+            m = re.match(r'\s*end\s+(\S+)', line)
+            if m and ns and ns[-1] == m.group(1):
+                ns.pop()
+                continue
+            m = re.match(r'\s*(?:@\[[^\]]*\]\s*)?(?:private\s+|protected\s+)?theorem\s+([^\s:({\[]+)', line)
+            if m:
+                names.append('.'.join(ns + [m.group(1)]))
     return names
 
 
@@ -144,8 +156,9 @@ def lean_check(prop, regenerate=True):
     if regenerate:
         import translate
         translate.regenerate()
-    mod = 'SageoptModel.Props.%s' % prop
-    rc, out, err, _ = run_cmd(['lake', 'build', mod, 'SageoptModel.Drv.All'], cwd=LEAN_DIR)
+    mods = prop_modules(prop)
+    mod = ' '.join(mods)
+    rc, out, err, _ = run_cmd(['lake', 'build'] + mods + ['SageoptModel.Drv.All'], cwd=LEAN_DIR)
     res.log = (out + err)[-6000:]
     res.modules = lean_module_files(prop)
     names = theorem_names(prop)
@@ -170,7 +183,8 @@ def lean_check(prop, regenerate=True):
     os.makedirs(audit_dir, exist_ok=True)
     audit = os.path.join(audit_dir, 'Audit%s.lean' % prop)
     with open(audit, 'w') as f:
-        f.write('import %s\n' % mod)
+        for m in mods:
+            f.write('import %s\n' % m)
         for n in names:
             f.write('#print axioms %s\n' % n)
     rc, out, err, _ = run_cmd(['lake', 'env', 'lean', audit], cwd=LEAN_DIR)
@@ -354,6 +368,10 @@ class Ctx:
                 'lean_wall_s': round(lean.wall, 2),
             })
         cov.update(self.extra)
+        cov['first_disagreements'] = json.loads(json.dumps(self.disagreements[:3], default=str))
+        if os.environ.get('VERIF_DEBUG'):
+            with open(os.path.join(VERIF, 'replays', '%s-disagreements.json' % self.prop), 'w') as f:
+                json.dump(self.disagreements[:200], f, indent=1, default=str)
         ev = {
             'property_id': self.prop,
             'tier': self.tier,
